@@ -1,5 +1,572 @@
 import SpowtdModel.Model.Curves
 import SpowtdModel.Model.Pipeline
-/- Helper lemmas for Props/C09.lean and Props/C13.lean. -/
+/- Helper lemmas for Props/C13.lean (carrier-free data flow through the alignment).
+   The `Rat` lemmas for Props/C09.lean are in Lemmas/CurvesRat.lean. -/
 namespace Spowtd
+variable {α : Type} [Num α]
+
+/-! ### the sorts only rearrange -/
+
+theorem mem_insertByFirst {x y : Nat × List (α × α)} {l : List (Nat × List (α × α))} :
+    y ∈ insertByFirst x l ↔ y = x ∨ y ∈ l := by
+  induction l with
+  | nil => simp [insertByFirst]
+  | cons z zs ih =>
+    unfold insertByFirst
+    simp only []
+    split
+    · simp only [List.mem_cons]
+    · simp only [List.mem_cons, ih]
+      constructor
+      · rintro (h | h | h)
+        · exact Or.inr (Or.inl h)
+        · exact Or.inl h
+        · exact Or.inr (Or.inr h)
+      · rintro (h | h | h)
+        · exact Or.inr (Or.inl h)
+        · exact Or.inl h
+        · exact Or.inr (Or.inr h)
+
+theorem mem_foldl_insertByFirst {y : Nat × List (α × α)} (l acc : List (Nat × List (α × α))) :
+    y ∈ l.foldl (fun acc x => insertByFirst x acc) acc ↔ y ∈ acc ∨ y ∈ l := by
+  induction l generalizing acc with
+  | nil => simp
+  | cons x xs ih =>
+    rw [List.foldl_cons, ih, mem_insertByFirst, List.mem_cons]
+    constructor
+    · rintro ((h | h) | h)
+      · exact Or.inr (Or.inl h)
+      · exact Or.inl h
+      · exact Or.inr (Or.inr h)
+    · rintro (h | h | h)
+      · exact Or.inl (Or.inr h)
+      · exact Or.inl (Or.inl h)
+      · exact Or.inr h
+
+theorem mem_sortByFirst {y : Nat × List (α × α)} {l : List (Nat × List (α × α))} :
+    y ∈ sortByFirst l ↔ y ∈ l := by
+  unfold sortByFirst
+  rw [mem_foldl_insertByFirst]
+  simp
+
+theorem length_insertByFirst (x : Nat × List (α × α)) (l : List (Nat × List (α × α))) :
+    (insertByFirst x l).length = l.length + 1 := by
+  induction l with
+  | nil => rfl
+  | cons z zs ih =>
+    unfold insertByFirst
+    simp only []
+    split
+    · rfl
+    · simp only [List.length_cons, ih]
+
+theorem mem_sortPairs_step {p x : (Int × Int) × (Int × Int)} {acc : List ((Int × Int) × (Int × Int))} :
+    x ∈ (acc.filter (fun q => decide (q.1.1 ≤ p.1.1))) ++ [p] ++
+        (acc.filter (fun q => decide (p.1.1 < q.1.1))) ↔ x ∈ acc ∨ x = p := by
+  simp only [List.mem_append, List.mem_filter, decide_eq_true_eq, List.mem_singleton]
+  constructor
+  · rintro ((⟨h, _⟩ | h) | ⟨h, _⟩)
+    · exact Or.inl h
+    · exact Or.inr h
+    · exact Or.inl h
+  · rintro (h | h)
+    · by_cases hx : x.1.1 ≤ p.1.1
+      · exact Or.inl (Or.inl ⟨h, hx⟩)
+      · exact Or.inr ⟨h, by omega⟩
+    · exact Or.inl (Or.inr h)
+
+theorem mem_sortPairs {x : (Int × Int) × (Int × Int)} {l : List ((Int × Int) × (Int × Int))} :
+    x ∈ sortPairs l ↔ x ∈ l := by
+  unfold sortPairs
+  suffices h : ∀ acc : List ((Int × Int) × (Int × Int)),
+      x ∈ l.foldl (fun acc p =>
+        (acc.filter (fun q => decide (q.1.1 ≤ p.1.1))) ++ [p] ++
+          (acc.filter (fun q => decide (p.1.1 < q.1.1)))) acc ↔ x ∈ acc ∨ x ∈ l by
+    rw [h]; simp
+  induction l with
+  | nil => intro acc; simp
+  | cons p ps ih =>
+    intro acc
+    rw [List.foldl_cons, ih, mem_sortPairs_step, List.mem_cons, or_assoc]
+
+theorem mem_sortInter_step {p x : Int × Int} {acc : List (Int × Int)} :
+    x ∈ (acc.filter (fun q => decide (q.1 ≤ p.1))) ++ [p] ++
+        (acc.filter (fun q => decide (p.1 < q.1))) ↔ x ∈ acc ∨ x = p := by
+  simp only [List.mem_append, List.mem_filter, decide_eq_true_eq, List.mem_singleton]
+  constructor
+  · rintro ((⟨h, _⟩ | h) | ⟨h, _⟩)
+    · exact Or.inl h
+    · exact Or.inr h
+    · exact Or.inl h
+  · rintro (h | h)
+    · by_cases hx : x.1 ≤ p.1
+      · exact Or.inl (Or.inl ⟨h, hx⟩)
+      · exact Or.inr ⟨h, by omega⟩
+    · exact Or.inl (Or.inr h)
+
+theorem mem_sortInter {x : Int × Int} {l : List (Int × Int)} :
+    x ∈ sortInter l ↔ x ∈ l := by
+  unfold sortInter
+  suffices h : ∀ acc : List (Int × Int),
+      x ∈ l.foldl (fun acc p =>
+        (acc.filter (fun q => decide (q.1 ≤ p.1))) ++ [p] ++
+          (acc.filter (fun q => decide (p.1 < q.1)))) acc ↔ x ∈ acc ∨ x ∈ l by
+    rw [h]; simp
+  induction l with
+  | nil => intro acc; simp
+  | cons p ps ih =>
+    intro acc
+    rw [List.foldl_cons, ih, mem_sortInter_step, List.mem_cons, or_assoc]
+
+/-! ### the extracted series -/
+
+theorem mem_riseSeries {db : Loaded α} {pairs : List ((Int × Int) × (Int × Int))}
+    {e : Int} {pts : List (α × α)} (h : (e, pts) ∈ riseSeries db pairs) :
+    ∃ p ∈ pairs, p.2.1 = e ∧ ∃ z0 z1, levelAt db p.2.1 = some z0 ∧ levelAt db p.2.2 = some z1 ∧
+      pts = [(Num.ofInt 0, z0), (totalRainDepth db p.1, z1)] := by
+  unfold riseSeries at h
+  obtain ⟨p, hp, hf⟩ := List.mem_filterMap.mp h
+  refine ⟨p, hp, ?_⟩
+  split at hf
+  · rename_i z0 z1 h0 h1
+    injection hf with hf
+    injection hf with he hpts
+    exact ⟨he, z0, z1, h0, h1, hpts.symm⟩
+  · exact absurd hf (by simp)
+
+theorem mem_recessionSeries {db : Loaded α} {inter : List (Int × Int)}
+    {e : Int} {pts : List (α × α)} (h : (e, pts) ∈ recessionSeries db inter) :
+    ∃ q ∈ inter, q.1 = e ∧
+      pts = (db.level.filter (fun z => decide (q.1 ≤ z.1) && decide (z.1 ≤ q.2))).map
+        (fun z => (Num.ofInt z.1, z.2)) := by
+  unfold recessionSeries at h
+  obtain ⟨q, hq, hf⟩ := List.mem_map.mp h
+  injection hf with he hpts
+  exact ⟨q, hq, he, hpts.symm⟩
+
+/-! ### `headMapping`: every entry is a mean crossing of the series it names -/
+
+theorem headMapping_entry {step : α} {L : List (List (α × α))} {hl : Int × List (Nat × α)}
+    (hhl : hl ∈ headMapping step L) {st : Nat × α} (hst : st ∈ hl.2) :
+    ∃ pts, L[st.1]? = some pts ∧ (hl.1, st.2) ∈ meanCrossings step pts := by
+  unfold headMapping at hhl
+  simp only [] at hhl
+  obtain ⟨k, _, rfl⟩ := List.mem_map.mp hhl
+  obtain ⟨p, hp, hf⟩ := List.mem_filterMap.mp hst
+  obtain ⟨q, hq, rfl⟩ := List.mem_map.mp hp
+  have hq' : L[q.2]? = some q.1 := List.mem_zipIdx_iff_getElem?.mp hq
+  cases hfind : (meanCrossings step q.1).find? (fun c => c.1 == k) with
+  | none =>
+    simp only [hfind, Option.map_none] at hf
+    exact absurd hf (by simp)
+  | some c =>
+    simp only [hfind, Option.map_some, Option.some.injEq] at hf
+    subst hf
+    have hc : c ∈ meanCrossings step q.1 := List.mem_of_find?_eq_some hfind
+    have hk : c.1 = k := by
+      have := List.find?_some hfind
+      simpa using this
+    refine ⟨q.1, hq', ?_⟩
+    show (k, c.2) ∈ meanCrossings step q.1
+    rw [← hk]
+    exact hc
+
+/-! ### `unionL`, `seriesOf` -/
+
+theorem mem_unionL {a b : List Nat} {x : Nat} : x ∈ unionL a b ↔ x ∈ a ∨ x ∈ b := by
+  unfold unionL
+  induction b generalizing a with
+  | nil => simp
+  | cons y ys ih =>
+    rw [List.foldl_cons, ih, List.mem_cons]
+    by_cases hy : a.contains y = true
+    · rw [if_pos hy]
+      have hya : y ∈ a := by simpa using hy
+      constructor
+      · rintro (h | h)
+        · exact Or.inl h
+        · exact Or.inr (Or.inr h)
+      · rintro (h | rfl | h)
+        · exact Or.inl h
+        · exact Or.inl hya
+        · exact Or.inr h
+    · rw [if_neg hy, List.mem_append, List.mem_singleton]
+      constructor
+      · rintro ((h | h) | h)
+        · exact Or.inl h
+        · exact Or.inr (Or.inl h)
+        · exact Or.inr (Or.inr h)
+      · rintro (h | h | h)
+        · exact Or.inl (Or.inl h)
+        · exact Or.inl (Or.inr h)
+        · exact Or.inr h
+
+omit [Num α] in
+theorem mem_seriesOf {m : Mapping α} {s : Nat} :
+    s ∈ seriesOf m ↔ ∃ hl ∈ m, ∃ st ∈ hl.2, st.1 = s := by
+  unfold seriesOf
+  suffices h : ∀ acc : List Nat,
+      s ∈ m.foldl (fun acc hl => unionL acc (seriesAt hl.2)) acc ↔
+        s ∈ acc ∨ ∃ hl ∈ m, ∃ st ∈ hl.2, st.1 = s by
+    rw [h]; simp
+  induction m with
+  | nil => intro acc; simp
+  | cons hl hls ih =>
+    intro acc
+    rw [List.foldl_cons, ih, mem_unionL]
+    have hsa : s ∈ seriesAt hl.2 ↔ ∃ st ∈ hl.2, st.1 = s := by
+      unfold seriesAt; exact List.mem_map
+    rw [hsa]
+    constructor
+    · rintro ((h | h) | ⟨hl', hm, h⟩)
+      · exact Or.inl h
+      · exact Or.inr ⟨hl, List.mem_cons_self, h⟩
+      · exact Or.inr ⟨hl', List.mem_cons_of_mem _ hm, h⟩
+    · rintro (h | ⟨hl', hm, h⟩)
+      · exact Or.inl (Or.inl h)
+      · rcases List.mem_cons.mp hm with rfl | hm
+        · exact Or.inl (Or.inr h)
+        · exact Or.inr ⟨hl', hm, h⟩
+
+/-! ### the sorted id list of `solveOffsets` -/
+
+/-- the `ids` of `solveOffsets` -/
+def sortedIds (l : List Nat) : List Nat :=
+  l.foldl (fun acc s => if acc.any (fun t => decide (s < t)) then
+      (acc.filter (fun t => decide (t < s))) ++ [s] ++ (acc.filter (fun t => decide (s < t))) else acc ++ [s]) []
+
+theorem mem_sortedIds_step {acc : List Nat} {s x : Nat} :
+    x ∈ (if acc.any (fun t => decide (s < t)) then
+      (acc.filter (fun t => decide (t < s))) ++ [s] ++ (acc.filter (fun t => decide (s < t)))
+      else acc ++ [s]) ↔ x ∈ acc ∨ x = s := by
+  split
+  · simp only [List.mem_append, List.mem_filter, decide_eq_true_eq, List.mem_singleton]
+    constructor
+    · rintro ((⟨h, _⟩ | h) | ⟨h, _⟩)
+      · exact Or.inl h
+      · exact Or.inr h
+      · exact Or.inl h
+    · rintro (h | h)
+      · by_cases h1 : x < s
+        · exact Or.inl (Or.inl ⟨h, h1⟩)
+        · by_cases h2 : s < x
+          · exact Or.inr ⟨h, h2⟩
+          · exact Or.inl (Or.inr (by omega))
+      · exact Or.inl (Or.inr h)
+  · simp only [List.mem_append, List.mem_singleton]
+
+theorem mem_sortedIds {l : List Nat} {x : Nat} : x ∈ sortedIds l ↔ x ∈ l := by
+  unfold sortedIds
+  suffices h : ∀ acc : List Nat,
+      x ∈ l.foldl (fun acc s => if acc.any (fun t => decide (s < t)) then
+        (acc.filter (fun t => decide (t < s))) ++ [s] ++ (acc.filter (fun t => decide (s < t)))
+        else acc ++ [s]) acc ↔ x ∈ acc ∨ x ∈ l by
+    rw [h]; simp
+  induction l with
+  | nil => intro acc; simp
+  | cons s ss ih =>
+    intro acc
+    rw [List.foldl_cons, ih, mem_sortedIds_step, List.mem_cons, or_assoc]
+
+/-! ### Gauss–Jordan returns one value per unknown -/
+
+theorem gaussJordan_length (n : Nat) (done todo : List (List α × α)) (xs : List α)
+    (h : gaussJordan n done todo = some xs) : xs.length = done.length + n := by
+  induction n generalizing done todo with
+  | zero =>
+    unfold gaussJordan at h
+    injection h with h
+    subst h
+    simp
+  | succ n ih =>
+    unfold gaussJordan at h
+    simp only [] at h
+    split at h
+    · exact absurd h (by simp)
+    · have := ih _ _ h
+      rw [this, List.length_cons, List.length_map]
+      omega
+
+/-! ### `solveOffsets`: the solution lists exactly the series of the mapping -/
+
+theorem solveOffsets_keys {m : Mapping α} {sol : List (Nat × α)} (h : solveOffsets m = .ok sol) :
+    ∀ s, s ∈ sol.map (·.1) ↔ s ∈ seriesOf m := by
+  unfold solveOffsets at h
+  simp only [] at h
+  change (match (sortedIds (seriesOf m)).getLast? with
+    | none => Except.error OffErr.empty
+    | some ref =>
+      match gaussJordan (sortedIds (seriesOf m)).dropLast.length []
+        ((sortedIds (seriesOf m)).dropLast.map
+          (equationOf m (sortedIds (seriesOf m)).dropLast)) with
+      | none => Except.error OffErr.singular
+      | some xs =>
+        if (sortedIds (seriesOf m)).all (fun s => isZero (residualSum m
+            (lookup ((sortedIds (seriesOf m)).dropLast.zip xs ++ [(ref, Num.ofInt 0)])) s))
+        then Except.ok ((sortedIds (seriesOf m)).dropLast.zip xs ++ [(ref, Num.ofInt 0)])
+        else Except.error OffErr.singular) = Except.ok sol at h
+  generalize hids : sortedIds (seriesOf m) = ids at h
+  split at h
+  · exact absurd h (by simp)
+  · rename_i ref hlast
+    split at h
+    · exact absurd h (by simp)
+    · rename_i xs hgj
+      split at h
+      · injection h with h
+        subst h
+        have hlen := gaussJordan_length _ _ _ _ hgj
+        obtain ⟨ys, hys⟩ := List.getLast?_eq_some_iff.mp hlast
+        have hdl : ids.dropLast = ys := by rw [hys]; simp
+        rw [hdl] at hlen ⊢
+        have hkeys : (ys.zip xs ++ [(ref, (Num.ofInt 0 : α))]).map (·.1) = ids := by
+          rw [List.map_append, List.map_fst_zip (by rw [hlen]; simp), hys]
+          rfl
+        intro s
+        rw [hkeys, ← hids, mem_sortedIds]
+      · exact absurd h (by simp)
+
+/-! ### `alignSeries`: indices reported are original indices, entries are own mean crossings -/
+
+/-- What the alignment guarantees about the indices it reports: every offset is keyed by the
+    index of a series handed in; every entry of the mapping names such a series, is a mean crossing
+    of that series' re-based samples, and has an offset; every level lists at least two entries. -/
+structure Traced (step : α) (S : List (List (α × α))) (a : Aligned α) : Prop where
+  offs : ∀ i ∈ a.offsets.map (·.1), i < S.length
+  entries : ∀ hl ∈ a.mapping, ∀ st ∈ hl.2, ∃ pts, S[st.1]? = some pts ∧
+    (hl.1, st.2) ∈ meanCrossings step (rebase pts) ∧ st.1 ∈ a.offsets.map (·.1)
+  levels : ∀ hl ∈ a.mapping, 2 ≤ hl.2.length
+
+theorem alignSeries_eq_ok {step : α} {S : List (List (α × α))} {a : Aligned α}
+    (h : alignSeries step S = .ok a) :
+    ∃ sol sorted kept, sorted = sortByFirst (S.zipIdx.map (fun p => (p.2, rebase p.1))) ∧
+      kept = dropSingletons (restrictTo (headMapping step (sorted.map (·.2)))
+        (mainComponent (headMapping step (sorted.map (·.2))))) ∧
+      solveOffsets kept = .ok sol ∧
+      a = { offsets := sol.map (fun p => ((sorted.getD p.1 (0, [])).1, p.2))
+            mapping := kept.map (fun hl => (hl.1, hl.2.map (fun st =>
+              ((sorted.getD st.1 (0, [])).1, st.2)))) } := by
+  unfold alignSeries at h
+  split at h
+  · exact absurd h (by simp)
+  · simp only [] at h
+    split at h
+    · exact absurd h (by simp)
+    · rename_i sol hsol
+      injection h with h
+      exact ⟨sol, _, _, rfl, rfl, hsol, h.symm⟩
+
+theorem sorted_entry {S : List (List (α × α))} {n : Nat} {pts' : List (α × α)}
+    (h : ((sortByFirst (S.zipIdx.map (fun p => (p.2, rebase p.1)))).map (·.2))[n]? = some pts') :
+    ∃ i pts, S[i]? = some pts ∧
+      (sortByFirst (S.zipIdx.map (fun p => (p.2, rebase p.1)))).getD n (0, []) = (i, rebase pts) ∧
+      pts' = rebase pts := by
+  rw [List.getElem?_map] at h
+  cases hx : (sortByFirst (S.zipIdx.map (fun p => (p.2, rebase p.1))))[n]? with
+  | none => rw [hx] at h; exact absurd h (by simp)
+  | some x =>
+    rw [hx, Option.map_some] at h
+    injection h with h
+    have hmem : x ∈ sortByFirst (S.zipIdx.map (fun p => (p.2, rebase p.1))) :=
+      List.mem_of_getElem? hx
+    rw [mem_sortByFirst] at hmem
+    obtain ⟨q, hq, rfl⟩ := List.mem_map.mp hmem
+    have hq' : S[q.2]? = some q.1 := List.mem_zipIdx_iff_getElem?.mp hq
+    refine ⟨q.2, q.1, hq', ?_, h.symm⟩
+    rw [List.getD_eq_getElem?_getD, hx]
+    rfl
+
+theorem alignSeries_traced {step : α} {S : List (List (α × α))} {a : Aligned α}
+    (h : alignSeries step S = .ok a) : Traced step S a := by
+  obtain ⟨sol, sorted, kept, hsorted, hkept, hsol, rfl⟩ := alignSeries_eq_ok h
+  have hkeys := solveOffsets_keys hsol
+  have hsub : ∀ hl ∈ kept, hl ∈ headMapping step (sorted.map (·.2)) ∧ 2 ≤ hl.2.length := by
+    intro hl hhl
+    rw [hkept] at hhl
+    unfold dropSingletons restrictTo at hhl
+    rw [List.mem_filter, List.mem_filter] at hhl
+    exact ⟨hhl.1.1, by simpa using hhl.2⟩
+  have hentry : ∀ hl ∈ kept, ∀ st ∈ hl.2, ∃ i pts, S[i]? = some pts ∧
+      sorted.getD st.1 (0, []) = (i, rebase pts) ∧
+      (hl.1, st.2) ∈ meanCrossings step (rebase pts) := by
+    intro hl hhl st hst
+    obtain ⟨pts', hp1, hp2⟩ := headMapping_entry (hsub hl hhl).1 hst
+    rw [hsorted] at hp1
+    obtain ⟨i, pts, hi, hg, rfl⟩ := sorted_entry hp1
+    rw [← hsorted] at hg
+    exact ⟨i, pts, hi, hg, hp2⟩
+  have hlt : ∀ {i : Nat} {pts : List (α × α)}, S[i]? = some pts → i < S.length := by
+    intro i pts hi
+    obtain ⟨hlt, _⟩ := List.getElem?_eq_some_iff.mp hi
+    exact hlt
+  refine ⟨?_, ?_, ?_⟩
+  · intro i hi
+    simp only [List.map_map, List.mem_map, Function.comp] at hi
+    obtain ⟨p, hp, rfl⟩ := hi
+    have hps : p.1 ∈ seriesOf kept := (hkeys p.1).mp (List.mem_map_of_mem hp)
+    obtain ⟨hl, hhl, st, hst, he⟩ := mem_seriesOf.mp hps
+    obtain ⟨i, pts, hi, hg, _⟩ := hentry hl hhl st hst
+    rw [← he, hg]
+    exact hlt hi
+  · intro hl' hhl' st' hst'
+    obtain ⟨hl, hhl, rfl⟩ := List.mem_map.mp hhl'
+    obtain ⟨st, hst, rfl⟩ := List.mem_map.mp hst'
+    obtain ⟨i, pts, hi, hg, hmc⟩ := hentry hl hhl st hst
+    refine ⟨pts, ?_, hmc, ?_⟩
+    · show S[(sorted.getD st.1 (0, [])).1]? = some pts
+      rw [hg]; exact hi
+    · have hss : st.1 ∈ seriesOf kept := mem_seriesOf.mpr ⟨hl, hhl, st, hst, rfl⟩
+      obtain ⟨p, hp, he⟩ := List.mem_map.mp ((hkeys st.1).mpr hss)
+      simp only [List.map_map, List.mem_map, Function.comp]
+      exact ⟨p, hp, by rw [he]⟩
+  · intro hl' hhl'
+    obtain ⟨hl, hhl, rfl⟩ := List.mem_map.mp hhl'
+    simp only [List.length_map]
+    exact (hsub hl hhl).2
+
+/-! ### `reorigin`, `assemble` -/
+
+theorem reorigin_keeps {a a' : Aligned α} {ref : Option Int} (h : reorigin a ref = .ok a') :
+    a'.mapping = a.mapping ∧ a'.offsets.map (·.1) = a.offsets.map (·.1) := by
+  unfold reorigin at h
+  split at h
+  · exact absurd h (by simp)
+  · split at h
+    · exact absurd h (by simp)
+    · injection h with h
+      subst h
+      refine ⟨rfl, ?_⟩
+      simp only [List.map_map]
+      rfl
+
+theorem assemble_eq_ok {step : α} {S : List (List (α × α))} {ref : Option α} {a' : Aligned α}
+    (h : assemble step S ref = .ok a') :
+    ∃ a k, alignSeries step S = .ok a ∧ reorigin a k = .ok a' := by
+  unfold assemble at h
+  cases ha : alignSeries step S with
+  | error e =>
+    rw [ha] at h
+    have h' : (Except.error e : Except OffErr (Aligned α)) = Except.ok a' := h
+    exact absurd h' (by simp)
+  | ok a =>
+    rw [ha] at h
+    cases ref with
+    | none => exact ⟨a, none, rfl, h⟩
+    | some r =>
+      cases hr : refIndex r step with
+      | error e =>
+        have h' : (do let k ← (do let i ← refIndex r step; pure (some i)); reorigin a k)
+            = Except.ok a' := h
+        rw [hr] at h'
+        have h'' : (Except.error e : Except OffErr (Aligned α)) = Except.ok a' := h'
+        exact absurd h'' (by simp)
+      | ok i =>
+        have h' : (do let k ← (do let i ← refIndex r step; pure (some i)); reorigin a k)
+            = Except.ok a' := h
+        rw [hr] at h'
+        exact ⟨a, some i, rfl, h'⟩
+
+theorem assemble_traced {step : α} {S : List (List (α × α))} {ref : Option α} {a' : Aligned α}
+    (h : assemble step S ref = .ok a') : Traced step S a' := by
+  obtain ⟨a, k, ha, hr⟩ := assemble_eq_ok h
+  obtain ⟨hm, ho⟩ := reorigin_keeps hr
+  have ht := alignSeries_traced ha
+  refine ⟨?_, ?_, ?_⟩
+  · rw [ho]; exact ht.offs
+  · rw [hm, ho]; exact ht.entries
+  · rw [hm]; exact ht.levels
+
+/-! ### `curveOf` -/
+
+theorem curveOf_eq_ok {step : α} {ref : Option α} {series : List (Int × List (α × α))}
+    {t : CurveTables α} (h : curveOf step ref series = .ok t) :
+    ∃ a, assemble step (series.map (·.2)) ref = .ok a ∧ t = tablesOf (series.map (·.1)) a := by
+  unfold curveOf at h
+  cases ha : assemble step (series.map (·.2)) ref with
+  | error e =>
+    rw [ha] at h
+    have h' : (Except.error e : Except OffErr (CurveTables α)) = Except.ok t := h
+    exact absurd h' (by simp)
+  | ok a =>
+    rw [ha] at h
+    have h' : (Except.ok (tablesOf (series.map (·.1)) a) : Except OffErr (CurveTables α))
+        = Except.ok t := h
+    injection h' with h'
+    exact ⟨a, rfl, h'.symm⟩
+
+omit [Num α] in
+theorem key_of_index {series : List (Int × List (α × α))} {i : Nat} {pts : List (α × α)}
+    (h : (series.map (·.2))[i]? = some pts) :
+    ((series.map (·.1)).getD i 0, pts) ∈ series := by
+  rw [List.getElem?_map] at h
+  cases hx : series[i]? with
+  | none => rw [hx] at h; exact absurd h (by simp)
+  | some x =>
+    rw [hx, Option.map_some] at h
+    injection h with h
+    rw [List.getD_eq_getElem?_getD, List.getElem?_map, hx, Option.map_some, Option.getD_some,
+      ← h]
+    exact List.mem_of_getElem? hx
+
+theorem curveOf_rows {step : α} {ref : Option α} {series : List (Int × List (α × α))}
+    {t : CurveTables α} (h : curveOf step ref series = .ok t) :
+    (∀ r ∈ t.intervals, r.1 ∈ series.map (·.1)) ∧
+    (∀ c ∈ t.crossings, c.1 ∈ t.intervals.map (·.1) ∧
+      ∃ pts, (c.1, pts) ∈ series ∧ (c.2.1, c.2.2) ∈ meanCrossings step (rebase pts)) := by
+  obtain ⟨a, ha, rfl⟩ := curveOf_eq_ok h
+  have ht := assemble_traced ha
+  unfold tablesOf
+  simp only []
+  constructor
+  · intro r hr
+    obtain ⟨p, hp, rfl⟩ := List.mem_map.mp hr
+    have hlt : p.1 < (series.map (·.1)).length := by
+      have := ht.offs p.1 (List.mem_map_of_mem hp)
+      simpa using this
+    show (series.map (·.1)).getD p.1 0 ∈ series.map (·.1)
+    rw [List.getD_eq_getElem?_getD, List.getElem?_eq_getElem hlt, Option.getD_some]
+    exact List.getElem_mem hlt
+  · intro c hc
+    obtain ⟨hl, hhl, hc⟩ := List.mem_flatMap.mp hc
+    obtain ⟨st, hst, rfl⟩ := List.mem_map.mp hc
+    obtain ⟨pts, hpts, hmc, hoff⟩ := ht.entries hl hhl st hst
+    constructor
+    · obtain ⟨p, hp, he⟩ := List.mem_map.mp hoff
+      simp only [List.map_map, List.mem_map, Function.comp]
+      exact ⟨p, hp, by rw [he]⟩
+    · exact ⟨pts, key_of_index hpts, hmc⟩
+
+/-! ### distinct keys: the series of a key is unique -/
+
+omit [Num α] in
+theorem series_of_key_unique {series : List (Int × List (α × α))}
+    (hk : (series.map (·.1)).Nodup) {e : Int} {p p' : List (α × α)}
+    (h : (e, p) ∈ series) (h' : (e, p') ∈ series) : p = p' := by
+  induction series with
+  | nil => exact absurd h (by simp)
+  | cons x xs ih =>
+    rw [List.map_cons, List.nodup_cons] at hk
+    rcases List.mem_cons.mp h with h | h <;> rcases List.mem_cons.mp h' with h' | h'
+    · rw [← h] at h'
+      injection h' with _ h'
+      exact h'.symm
+    · exact absurd (List.mem_map_of_mem (f := (·.1)) h') (by rw [← h] at hk; exact hk.1)
+    · exact absurd (List.mem_map_of_mem (f := (·.1)) h) (by rw [← h'] at hk; exact hk.1)
+    · exact ih hk.2 h h'
+
+/-! ### every level of an alignment is covered by offsets -/
+
+theorem Traced.covered {step : α} {S : List (List (α × α))} {a : Aligned α} (ht : Traced step S a) :
+    ∀ hl ∈ a.mapping, hl.2 ≠ [] ∧ ∀ st ∈ hl.2, ∃ v, (st.1, v) ∈ a.offsets := by
+  intro hl hhl
+  constructor
+  · intro he
+    have := ht.levels hl hhl
+    rw [he] at this
+    exact absurd this (by simp)
+  · intro st hst
+    obtain ⟨_, _, _, hoff⟩ := ht.entries hl hhl st hst
+    obtain ⟨p, hp, he⟩ := List.mem_map.mp hoff
+    exact ⟨p.2, by rw [← he]; exact hp⟩
+
 end Spowtd
